@@ -43,6 +43,16 @@ class Context:
         return m.relpath
 
 
+def _block_of(fn, stmt):
+    """the statement list of `fn` that directly contains `stmt`"""
+    for n in ast.walk(fn):
+        for field in ("body", "orelse", "finalbody"):
+            blk = getattr(n, field, None)
+            if isinstance(blk, list) and any(x is stmt for x in blk):
+                return blk
+    return None
+
+
 def _dealias_read_only_attrs(ct: ClassTable) -> int:
     """`t = self.a.b` ... `t` (a loop invariant looked up once) is read as `self.a.b` wherever the method - under the class
     that defines it and under every subclass - can be shown never to write `self.a`, directly or through anything it calls.
@@ -126,6 +136,42 @@ def _dealias_read_only_attrs(ct: ClassTable) -> int:
                             break
                     if pure:
                         table[n] = v
+            # an alias of an attribute the method does write is still the attribute itself up to the first statement that
+            # can write it: `it = self.iteration; self.save(it)` right after each other (typically an inlined helper's
+            # parameter) reads the counter, whereas a copy taken before the loop and used inside it does not
+            local_done = 0
+            e0 = eff_cache.get(ci.qualname)
+            for n_, (v_, root_, d_) in cands.items():
+                if n_ in table or root_ in methodish or e0 is None:
+                    continue
+                blk = _block_of(fn, d_)
+                if blk is None:
+                    continue
+                k0 = next(i_ for i_, st_ in enumerate(blk) if st_ is d_)
+                for st_ in blk[k0 + 1:]:
+                    try:
+                        w_ = set(e0.of_region([st_], ci)[1])
+                    except (AnalysisError, RecursionError):
+                        break
+                    if isinstance(st_, (ast.For, ast.While)):
+                        break  # a loop may run its body after a later write
+
+                    class R1(ast.NodeTransformer):
+                        def visit_Name(self, nn):
+                            if isinstance(nn.ctx, ast.Load) and nn.id == n_:
+                                return ast.copy_location(copy.deepcopy(v_), nn)
+                            return nn
+
+                        def visit_Lambda(self, f):
+                            return f
+
+                    if root_ in w_:
+                        # the writing statement itself may still read the alias before it writes (`self.save(it)` does not
+                        # write the counter; `self.iteration = it + 1` would): only a plain call / expression is rewritten
+                        break
+                    R1().visit(st_)
+                    local_done += 1
+            n_done += local_done
             if not table:
                 continue
             defining = {id(d) for n, (_v, _r, d) in cands.items() if n in table}
